@@ -215,7 +215,8 @@ var c14Vals = []TV{
 var c14StaticNames = []string{"id", "title", "data-k", "data-j", "href", "lang", "alt"}
 var c14BoundNames = []string{"id", "title", "data-k", "data-j", "href", "data-b", "data-c", "disabled", "hidden", "value"}
 var c14StaticVals = []string{"main", "Hello world", "  padded  ", `a&b <c> "q"`, "", "x:y;z,w", "{curly}", "0", "false", "trail "}
-var c14StaticClass = []string{"s1", "s1 s2", "  s1   s2 ", "s-1 s_2 s3"}
+// (the later ones contain bound class names - on, off, is-on, b1, b2, a1, g - as substrings of other tokens)
+var c14StaticClass = []string{"s1", "s1 s2", "button xon offset", "x-is-on-y third-party", "b1b2 sb1 a1x", "song", "  s1   s2 ", "s-1 s_2 s3"}
 var c14StaticStyle = []string{"color: red; margin: 0; color: blue", "display:-webkit-box;display:flex", "display:none", "display: none; color: blue", "color: blue; display: flex", "color: blue", "color: blue; margin: 0", "margin:0;padding:1px 2px", "color: blue; font-size: 10px; background-color: white", "width: 5px;", " color : blue ; margin : 0 ; "}
 var c14BoundClassStr = []TV{tvS("b1 b2"), tvS("b1"), tvS(" b1  b2 "), tvS(""), tvNil(), tvMissing()}
 var c14BoundStyleStr = []TV{tvS("display: none"), tvS("color: red"), tvS("color: red; width: 1px"), tvS("font-size:12px;"), tvS(""), tvMissing()}
@@ -269,6 +270,7 @@ func c14Atoms() []c14Atom {
 		add(st("title", "  padded  "))
 		add(st("data-k", `a&b <c> "q"`))
 		add(st("class", "s1 s2"))
+		add(st("class", "button xon offset is-on-dark b1b2"))
 		add(st("style", "color: blue; margin: 0"))
 		add(st("style", "display:none"))
 		add(st("style", "color: red; margin: 0; color: blue"))
